@@ -133,7 +133,7 @@ theorem sh_step (e : Ep) (ev : Ev) : shapes (step e ev).2 = true := by
     split <;> simp [this]
   | query q => simp only []; split <;> simp [Out.shapeOK]
   | procQueue => simp only []; split <;> (try split) <;> simp
-  | pump n => simp only []; split <;> simp
+  | pump n => simp only []; split <;> (try split) <;> simp
   | rx c => simp only []; split <;> simp
   | rxEof => simp only []; split <;> simp
   | keepaliveTimer => simp only []; split <;> (try split) <;> simp
